@@ -311,6 +311,7 @@ class TracedSampler(Sampler):
         import warnings
         import io
         import contextlib
+        extra = {}
         with warnings.catch_warnings():
             warnings.simplefilter('ignore')
             with np.errstate(all='ignore'):
@@ -331,6 +332,8 @@ class TracedSampler(Sampler):
                         self.posterior()
                 elif what == 'occupation':
                     self.shell_bound_occupation()
+                    # the absolute matrix is logged: the trace specification recomputes it from the signatures
+                    extra['occ'] = [[int(x) for x in row] for row in self.shell_bound_occupation(fractional=False)]
                 elif what == 'deprecated':
                     self.evidence()
                     self.effective_sample_size()
@@ -342,7 +345,7 @@ class TracedSampler(Sampler):
                     self.discard_exploration
                 else:
                     raise ValueError(what)
-        self._emit('Observe', what=what)
+        self._emit('Observe', what=what, **extra)
         self._flush()
 
     def traced_posterior(self):
